@@ -150,15 +150,9 @@ def c10b(ctx):
         defs = Defs(fn.node)
         gi = g.find(lambda x: is_call(x, 'get_info'))
         gate = lambda at: at.mentions(lambda y: is_call(y, 'coverage.contains') and y.args and 'coord' in unparse(y.args[0]))
-        ok = bool(gi)
-        for n, x in gi:
-            # reachable only when not (coverage and not coverage.contains(query.coord, ..)):
-            edges = []
-            for s, d, test, pol in g.branch_edges():
-                imp = implied(test, pol)
-                if any(gate(at) and p is False for at, p in imp) and any(at.op is None and unparse(at.expr) == 'coverage' and p is True for at, p in imp):
-                    edges.append((s, d))
-            ok = ok and bool(edges) and n not in g.reachable(0, skip_edges=[]) or (bool(edges) and all(n not in g.reachable(d) for s, d in edges))
+        # every path to a get_info either found the query point inside the limit or found no limit at all
+        nolimit = lambda at: at.op is None and unparse(at.expr) == 'coverage'
+        ok = bool(gi) and all(g.guarded_any(n, [(gate, True), (nolimit, False)]) for n, x in gi)
         cov = [v for v, sel in defs.of('coverage')]
         ok = ok and bool(cov) and all(contains(v, lambda y: is_call(y, auth)) for v in cov)
         ctx.check(ok, '%s:limit-gates-feature-info' % fn.short,
@@ -549,9 +543,11 @@ def c10g(ctx):
         if target:
             nones = g.find_stmts(lambda s: isinstance(s, ast.Assign) and unparse(s.targets[0]) == target and const_value(s.value, 1) is None)
         else:
-            nones = [r for r in g.find_stmts(lambda s: isinstance(s, ast.Return) and const_value(s.value, 1) is None and s.value is not None)]
-        edges_true = g.guard_edges(truthy, True)
-        ok = ok and all(not any(n in g.reachable(d) for s, d in edges_true if _is_last_test(g, s, var)) or g.guarded(n, truthy, False) for n in nones)
+            # the returns of "no limit" that lie behind an assignment of the limit variable (`return` and `return None` alike;
+            # the permits decided before the limit is looked at -- no callback, 'full' -- are not meant)
+            vdefs = g.find_stmts(lambda s: isinstance(s, ast.Assign) and any(isinstance(t, ast.Name) and t.id == var for t in s.targets))
+            nones = [r for r in g.find_stmts(lambda s: isinstance(s, ast.Return) and const_value(s.value, 1) is None)
+                     if any(g.reaches_avoiding(d, r) for d in vdefs)]
         ok = ok and all(g.guarded(n, truthy, False) for n in nones) and bool(nones)
         ctx.check(ok, '%s:limit-loaded-when-given' % fn.short, 'load_limited_to(%s) runs iff the callback supplied a limit; "no limit" only when it did not' % var, fn,
                   fail='a limit supplied by the authorization callback is dropped (or invented): the response is not clipped to the permitted area')
